@@ -195,9 +195,10 @@ def sround(x, ndigits=None, numpy_style=False):
         c.lemma(z3.And(app - xt <= half, xt - app <= half))
         # the rounded value is a multiple of 10**-n (makes "rounding dropped" models
         # reproducible on real floats)
-        k = c.fresh('rndk', 'int')
-        scale = z3.RatVal(1, 10 ** ndigits) if ndigits >= 0 else z3.RealVal(10 ** (-ndigits))
-        c.lemma(app == z3.ToReal(k) * scale)
+        if LEMMAS['round_grid']:
+            k = c.fresh('rndk', 'int')
+            scale = z3.RatVal(1, 10 ** ndigits) if ndigits >= 0 else z3.RealVal(10 ** (-ndigits))
+            c.lemma(app == z3.ToReal(k) * scale)
         for a, fa in apps:
             c.lemma(z3.And(z3.Implies(a <= xt, fa <= app), z3.Implies(xt <= a, app <= fa)))
         apps.append((xt, app))
@@ -251,7 +252,7 @@ def sym_e():
 
 
 # optional lemma groups (completeness hints only; every lemma is a true statement)
-LEMMA_DEFAULTS = {'taylor': False, 'exp_rational': True, 'exp_monotone': True, 'taylor6': False}
+LEMMA_DEFAULTS = {'taylor': False, 'exp_rational': True, 'exp_monotone': True, 'taylor6': False, 'round_grid': True}
 LEMMAS = dict(LEMMA_DEFAULTS)
 
 
